@@ -199,6 +199,11 @@ fn run_parser<'a, R: lexpr::parse::Read<'a>>(mut p: Parser<R>, api: &str, out: &
             "datum" => p.next_datum().map(|o| o.map(Value::from)),
             "iter" => p.value_iter().next().transpose(),
             "diter" => p.datum_iter().next().transpose().map(|o| o.map(Value::from)),
+            // the (deprecated) Iterator implementation of Parser itself
+            "piter" => { #[allow(deprecated)] let r = Iterator::next(&mut p); r.transpose() }
+            // call history: ask "is this the end?" before every item and keep going whatever the answer
+            "value_ee" => { let _ = p.expect_end(); p.next_value() }
+            "datum_ee" => { let _ = p.expect_end(); let _ = p.expect_end(); p.next_datum().map(|o| o.map(Value::from)) }
             _ => panic!("api"),
         };
         if n > 0 { out.push(','); }
@@ -386,6 +391,47 @@ fn alist_check(out: &mut String) {
     out.push_str("]}");
 }
 
+/// C15 / C20: structural clone and comparison of lists (nested, dotted, sharing prefixes) against the printed text
+fn cons_check(out: &mut String) {
+    let texts = ["(a)", "(a b)", "(a b c)", "(a . b)", "(a b . c)", "(a b c . d)", "(1 2 . 3)", "(x (1 2 . 3) \"s\" . 7)", "((a . b) (c d . e) . f)",
+        "(a (b (c (d . e))))", "(a b c d e f g h)", "(a b c d e f g . h)", "((1 . 2) . (3 . 4))", "(a . (b . (c . ())))", "(() () . ())",
+        "(#(1 2) . #(3))", "(a b x)", "(a x c)", "(x b c)", "(a b)", "(a b c d)", "(a b . (c))", "(1 2 3)", "(1 2 . 4)", "(1 3 . 3)", "((1 2 . 3))", "((1 . 3))"];
+    let vals: Vec<Value> = texts.iter().map(|t| lexpr::from_str(t).unwrap()).collect();
+    let printed: Vec<String> = vals.iter().map(|v| lexpr::to_string(v).unwrap()).collect();
+    let mut bad: Vec<String> = Vec::new();
+    let mut cases = 0usize;
+    for (i, v) in vals.iter().enumerate() {
+        cases += 3;
+        let c = v.clone();
+        let pc = lexpr::to_string(&c).unwrap();
+        if pc != printed[i] { bad.push(format!("clone of {} prints as {}", printed[i], pc)); }
+        if lexpr::to_string(v).unwrap() != printed[i] { bad.push(format!("cloning modified {} into {}", printed[i], lexpr::to_string(v).unwrap())); }
+        if let Value::Cons(cell) = v {
+            let (owned, tail) = cell.to_vec();
+            let (refs, rtail) = cell.to_ref_vec();
+            let a: Vec<String> = owned.iter().map(|x| lexpr::to_string(x).unwrap()).collect();
+            let b: Vec<String> = refs.iter().map(|x| lexpr::to_string(x).unwrap()).collect();
+            if a != b || lexpr::to_string(&tail).unwrap() != lexpr::to_string(rtail).unwrap() {
+                bad.push(format!("to_vec of {} gives {:?}, to_ref_vec gives {:?}", printed[i], a, b));
+            }
+        }
+        for (j, w) in vals.iter().enumerate() {
+            cases += 1;
+            let want = printed[i] == printed[j];
+            if (v == w) != want || (&c == w) != want {
+                bad.push(format!("{} == {} is {} (clone: {}), expected {}", printed[i], printed[j], v == w, &c == w, want));
+            }
+        }
+        if bad.len() > 5 { break; }
+    }
+    write!(out, "{{\"cases\":{},\"bad\":[", cases).unwrap();
+    for (i, b) in bad.iter().take(5).enumerate() {
+        if i > 0 { out.push(','); }
+        jstr(out, b.as_bytes());
+    }
+    out.push_str("]}");
+}
+
 fn long_list(n: usize, dotted: bool) -> Value {
     Value::append((0..n as u64).map(Value::from), if dotted { Value::from(7u64) } else { Value::Null })
 }
@@ -403,6 +449,21 @@ fn stack_op(op: &str, n: usize, dotted: bool) -> usize {
     match op {
         "build" => { let v = long_list(n, dotted); let r = v.is_cons() as usize; std::mem::forget(v); r }
         "drop" => { let v = long_list(n, dotted); drop(v); 1 }
+        "drop_nils" => { let v = Value::append((0..n).map(|_| Value::Nil), if dotted { Value::from(7u64) } else { Value::Null }); drop(v); 1 }
+        "drop_nested_heads" => { let v = Value::append((0..n).map(|_| Value::list(vec![Value::Nil])), Value::Null); drop(v); 1 }
+        "alist_get_value" => {
+            let v = Value::list((0..n as u64).map(|i| Value::cons(Value::from(i), Value::from(i + 1))).collect::<Vec<Value>>());
+            let hit = v.get(&Value::from(n as u64 - 1)).is_some() as usize;
+            let miss = v.get(&Value::symbol("absent")).is_none() as usize;
+            let idx = (v[&Value::from(n as u64 - 2)] == Value::from(n as u64 - 1)) as usize;
+            std::mem::forget(v); hit + miss + idx
+        }
+        "alist_get_name" => {
+            let v = Value::list((0..n as u64).map(|i| Value::cons(Value::symbol(format!("k{}", i)), Value::from(i))).collect::<Vec<Value>>());
+            let hit = v.get(format!("k{}", n - 1).as_str()).is_some() as usize;
+            let miss = v.get("absent").is_none() as usize;
+            std::mem::forget(v); hit + miss
+        }
         "clone" => { let v = long_list(n, dotted); let w = v.clone(); let r = w.is_cons() as usize; std::mem::forget(v); std::mem::forget(w); r }
         "eq" => { let v = long_list(n, dotted); let w = long_list(n, dotted); let r = (v == w) as usize; std::mem::forget(v); std::mem::forget(w); r }
         "eq_self" => { let v = long_list(n, dotted); #[allow(clippy::eq_op)] let r = (v == v) as usize; std::mem::forget(v); r }
@@ -578,6 +639,7 @@ fn main() {
     match a[1].as_str() {
         "printcheck" => print_check(&mut out),
         "alistcheck" => alist_check(&mut out),
+        "conscheck" => cons_check(&mut out),
         "stack" => {
             // stack <op> <n> [dotted]: run one list-walking operation on an n-element list on a 2 MiB thread
             let op = a[2].clone();
